@@ -90,3 +90,36 @@ Theorem C03_negation_of_flat_patterns_is_a_filter : forall orbit t ext nxt exh n
     filter (fun q => negb (matched exh nonexh q)) (yields (walk mind maxd ls root)).
 Proof. exact negation_walk_flat. Qed.
 Print Assumptions C03_negation_of_flat_patterns_is_a_filter.
+
+From WaxModel Require Import Glob.
+From WaxProofs Require Import DepthAltFacts NegationAltFacts.
+
+(* the same with the promise abstracted: every alternative whose verdict is `Always` has a sound verdict *)
+Theorem C03_negation_is_a_filter_when_the_verdicts_of_its_alternatives_are_sound : forall orbit t ext nxt exh nonexh,
+  Forall (sound_alt orbit) (into_alternatives t) -> not_partition t = Ok (ext, nxt) ->
+  decides orbit exh ext -> decides orbit nonexh nxt -> opt_match exh [] = false ->
+  (forall q, matched exh nonexh q = true <-> Lang orbit t (join_path q)) /\
+  forall ls mind maxd root, names_valid root ->
+    yields (walk mind maxd (ls ++ [nl exh nonexh]) root) =
+    filter (fun q => negb (matched exh nonexh q)) (yields (walk mind maxd ls root)).
+Proof. exact negation_walk_sound_alts. Qed.
+Print Assumptions C03_negation_is_a_filter_when_the_verdicts_of_its_alternatives_are_sound.
+
+(* the instance for a negated glob that builds, has no repetition, cannot end with a separator and is not an alternation at its top
+   (`**/{.git,node_modules}/**`, `{src,tests}/**/*.tmp`): the promise is C09_built_globs_without_repetitions_always_sound *)
+Theorem C03_negation_of_a_built_glob_without_repetitions_is_a_filter : forall orbit e t r ext nxt exh nonexh,
+  build e = BuildOk t r -> rep_free t = true -> may_end_sep t = false -> into_alternatives t = [t] ->
+  not_partition t = Ok (ext, nxt) -> decides orbit exh ext -> decides orbit nonexh nxt -> opt_match exh [] = false ->
+  (forall q, matched exh nonexh q = true <-> Lang orbit t (join_path q)) /\
+  forall ls mind maxd root, names_valid root ->
+    yields (walk mind maxd (ls ++ [nl exh nonexh]) root) =
+    filter (fun q => negb (matched exh nonexh q)) (yields (walk mind maxd ls root)).
+Proof. exact negation_of_built_glob. Qed.
+Print Assumptions C03_negation_of_a_built_glob_without_repetitions_is_a_filter.
+
+(* the premises on the glob are satisfiable: **/{a,b}/** is exhaustive and its own only alternative *)
+Example C03_built_negation_nonvacuous :
+  let e := [42;42;47;123;97;44;98;125;47;42;42]%N in
+  exists t r ext, build e = BuildOk t r /\ rep_free t = true /\ may_end_sep t = false /\ into_alternatives t = [t] /\
+                  is_exhaustive t = Ok Always /\ not_partition t = Ok (Some ext, None).
+Proof. cbv zeta. do 3 eexists. repeat split; vm_compute; reflexivity. Qed.
